@@ -145,7 +145,9 @@ pub fn check(c: &Case) -> Outcome {
     // (the span end is xold + h of the last step: its rounding is relative to the larger end of that step, which matters
     // when the run ends near t = 0)
     let g_prev = grid[grid.len() - 2];
-    if (b - g_last).abs() > 4.0 * ulp(g_last.abs().max(b.abs()).max(g_prev.abs())) {
+    // Radau and BDF declare xend reached when the remaining distance is below their step-size resolution (up to 10 eps |x|,
+    // 20 ulps) and report xend itself; the stored segment still ends at xold + h: 32 ulps as in C03's "xend to rounding"
+    if (b - g_last).abs() > 32.0 * ulp(g_last.abs().max(b.abs()).max(g_prev.abs())) {
         return Outcome::viol(format!("{}: dense span ends at {:e} but the last accepted step ended at {:e}", name, b, g_last));
     }
     // every accepted step end is reproduced; continuity across the boundary
